@@ -36,4 +36,14 @@ def subchecks(tier):
     base = system_subcheck("lattice", prof, lambda spec: [Horizon()], nontrivial, classes=classes,
                             n={"quick": 9600, "thorough": 60000}, abort_is_violation="C14",
                             rule="full lattice incl. exact/trackers/deadlock detector; horizon + count monitor")
-    return [base, fuzz_subcheck(base, tier)]
+    region = system_subcheck("sched_blocked", common.region_profile("C14", plans=("max_time", "max_customers")), lambda spec: [Horizon()],
+                             lambda a, spec, res: a.get("rec_interrupted_service", 0) >= 1 and a.get("blocked_records", 0) >= 1, classes=classes,
+                             n={"quick": 3600, "thorough": 30000}, abort_is_violation="C14",
+                             rule="pre-emptive schedules x blocking region (heavy load, grid times)")
+    wd = {"exact": 1.0, "schedule": 0.3, "reneging": 0.3, "priorities": 0.3, "capacity": 0.3, "batching": 0.2, "self_loops": 0.3, "inf": 0.1}
+    dec = S.Profile(list(wd), weights=wd, required=("exact",), numeric="decgrid", max_nodes=2, max_classes=2, plans=("max_time_decimal",),
+                    horizon=(1.0, 8.0), budget=600, resumptions=(1, 3), excluded=common.EXCL["C14"])
+    exact_dec = system_subcheck("exact_decimal", dec, lambda spec: [Horizon()], lambda a, spec, res: a.get("events", 0) >= 20, classes=classes,
+                                n={"quick": 3600, "thorough": 30000}, abort_is_violation="C14",
+                                rule="exact arithmetic on a 0.1 grid with horizons that are decimal (non-dyadic) numbers: an event at Decimal('1.1') is strictly before the float 1.1")
+    return [base, region, exact_dec, fuzz_subcheck(base, tier)]
